@@ -5,6 +5,8 @@ import os
 import time
 import traceback
 
+import z3
+
 from . import frontend, symex, calls, solve, units
 
 VERIF = os.path.dirname(os.path.dirname(os.path.dirname(os.path.abspath(__file__))))
@@ -69,15 +71,26 @@ def run_property(prop, tier, repo_root, seed, open_findings):
         obligations.extend(('lemma:' + name, ob) for ob in r.obligations)
     # definitional clauses are not obligations
     obligations = [(k, ob) for k, ob in obligations if not ob.name.split('#')[0].endswith('post.define')]
+    plain, groups = apply_induction(eng, obligations)
     timeout = 20 if tier == 'quick' else 120
-    results = solve.discharge_all([ob for _, ob in obligations], timeout_s=timeout, confirm=(tier == 'thorough'))
+    confirm = (tier == 'thorough')
     discharged = 0
     by_backend = {}
     solver_seconds = 0.0
     samples = []
-    for (key, ob), r in zip(obligations, results):
+    n_obligations = len(plain) + len(groups)
+
+    def good(r):
+        return r['verdict'] == 'unsat' and not r.get('unconfirmed')
+
+    def account(r):
+        nonlocal solver_seconds
         solver_seconds += r['seconds']
-        if r['verdict'] == 'unsat' and not r.get('unconfirmed'):
+
+    results = solve.discharge_all([ob for _, ob in plain], timeout_s=timeout, confirm=confirm)
+    for (key, ob), r in zip(plain, results):
+        account(r)
+        if good(r):
             discharged += 1
             by_backend[r['by']] = by_backend.get(r['by'], 0) + 1
             if len(samples) < 10:
@@ -85,10 +98,48 @@ def run_property(prop, tier, repo_root, seed, open_findings):
                                 'seconds': round(r['seconds'], 3)})
         elif r['verdict'] == 'sat':
             from . import replay
-            v = replay.violation_for(eng, key, ob, r, repo_root)
-            violations.append(v)
+            violations.append(replay.violation_for(eng, key, ob, r, repo_root))
         else:
             undecided.append({'name': ob.name, 'reason': 'solver %s %s' % (r['by'], json.dumps(r.get('detail')))})
+    # obligations proved by induction (InductionGroup): closure of the hypotheses, base + step, direct
+    if groups:
+        flat = [(gi, o) for gi, g in enumerate(groups) for o in g.closure_obligations()]
+        res = solve.discharge_all([o for _, o in flat], timeout_s=min(timeout, 10), confirm=False)
+        closed = {gi: [] for gi in range(len(groups))}
+        for (gi, o), r in zip(flat, res):
+            account(r)
+            closed[gi].append(r['verdict'] == 'unsat')
+        flat = [(gi, o) for gi, g in enumerate(groups) for o in g.induction_obligations(closed[gi])]
+        res = solve.discharge_all([o for _, o in flat], timeout_s=timeout, confirm=confirm)
+        ok = {gi: True for gi in range(len(groups))}
+        last_by = {}
+        for (gi, o), r in zip(flat, res):
+            account(r)
+            ok[gi] = ok[gi] and good(r)
+            last_by[gi] = r['by']
+        retry = []
+        for gi, g in enumerate(groups):
+            if ok[gi]:
+                discharged += 1
+                by_backend[last_by[gi]] = by_backend.get(last_by[gi], 0) + 1
+                if len(samples) < 10:
+                    samples.append({'obligation': g.ob.name, 'function': g.key, 'verdict': 'unsat',
+                                    'how': 'induction over the sequence parameter', 'by': last_by[gi]})
+            else:
+                retry.append(g)
+        res = solve.discharge_all([g.ob for g in retry], timeout_s=timeout, confirm=confirm)
+        for g, r in zip(retry, res):
+            account(r)
+            if good(r):
+                discharged += 1
+                by_backend[r['by']] = by_backend.get(r['by'], 0) + 1
+            elif r['verdict'] == 'sat':
+                from . import replay
+                violations.append(replay.violation_for(eng, g.key, g.ob, r, repo_root))
+            else:
+                undecided.append({'name': g.ob.name, 'reason': 'not provable by induction and the direct query is %s %s'
+                                  % (r['by'], json.dumps(r.get('detail')))})
+    obligations = list(range(n_obligations))
     return {
         'obligations': len(obligations), 'discharged': discharged, 'violations': violations,
         'undecided': undecided, 'functions': functions, 'solver_seconds': round(solver_seconds, 2),
@@ -104,3 +155,121 @@ def run_property(prop, tier, repo_root, seed, open_findings):
 def replay(prop, payload, repo_root):
     from . import replay as rp
     return rp.replay_file(prop, payload, repo_root)
+
+
+def mentions(t, const):
+    seen = set()
+    stack = [t]
+    while stack:
+        e = stack.pop()
+        if e.get_id() in seen:
+            continue
+        seen.add(e.get_id())
+        if e.eq(const):
+            return True
+        stack.extend(e.children())
+        if z3.is_quantifier(e):
+            stack.append(e.body())
+    return False
+
+
+class InductionGroup:
+    """An obligation proved by induction over a sequence-valued parameter T (`induct` hint).
+
+    Hypotheses H: the path-condition conjuncts that do not mention T, plus those that do and are
+    prefix-closed (c[s] and len s > 0 imply c[init s], proved individually).  Then
+        base:  len s0 = 0, H[s0]            |-  goal[s0]
+        step:  len s > 0, H[s], goal[init s] |-  goal[s]
+    which gives  forall s. H[s] => goal[s],  hence the obligation (its path condition contains
+    H[T]).  If this fails the original obligation is tried directly; only a `sat` of the direct
+    query is a counterexample."""
+
+    def __init__(self, key, ob, const):
+        from .symex import Obligation, fresh
+        from . import values as vl
+        self.key, self.ob, self.const = key, ob, const
+        self.s = fresh('ind', vl.SeqVal)
+        self.n = z3.Length(self.s)
+        self.init = z3.SubSeq(self.s, 0, self.n - 1)
+        self.s0 = fresh('ind0', vl.SeqVal)   # (a ground empty sequence makes z3's rewriter unfold without end)
+        self.h0 = [p for p in ob.pc if not mentions(p, const)]
+        self.cands = [p for p in ob.pc if mentions(p, const)]
+        self.Ob = Obligation
+
+    def at(self, t, x):
+        return z3.substitute(t, (self.const, x))
+
+    @staticmethod
+    def instance(q, term):
+        """instance of a universally quantified formula over one integer variable"""
+        if z3.is_quantifier(q) and q.is_forall() and q.num_vars() == 1 and q.var_sort(0) == z3.IntSort():
+            return z3.substitute_vars(q.body(), term)
+        return None
+
+    def closure_obligations(self):
+        """c[s], len s > 0 |- c[init s]; a quantified c is instantiated by hand at the skolem index"""
+        from .symex import fresh
+        out = []
+        for j, c in enumerate(self.cands):
+            cs, ci = self.at(c, self.s), self.at(c, self.init)
+            i0 = fresh('i0', z3.IntSort())
+            gi = self.instance(ci, i0)
+            if gi is not None:
+                out.append(self.Ob('%s.ind-closed.%d' % (self.ob.name, j), self.ob.kind,
+                                   [self.n > 0, cs, self.instance(cs, i0)], gi, self.ob.info))
+            else:
+                out.append(self.Ob('%s.ind-closed.%d' % (self.ob.name, j), self.ob.kind, [self.n > 0, cs], ci, self.ob.info))
+        return out
+
+    def induction_obligations(self, closed_flags):
+        hyp = list(self.h0) + [c for c, ok in zip(self.cands, closed_flags) if ok]
+        base = self.Ob(self.ob.name + '.ind-base', self.ob.kind,
+                       [z3.Length(self.s0) == 0] + [self.at(h, self.s0) for h in hyp], self.at(self.ob.goal, self.s0), self.ob.info)
+        hs = [self.at(h, self.s) for h in hyp]
+        # quantified hypotheses are also given instantiated at the last index (what one unfolding needs)
+        extra = [x for x in (self.instance(h, self.n - 1) for h in hs) if x is not None]
+        step = self.Ob(self.ob.name + '.ind-step', self.ob.kind,
+                       [self.n > 0] + hs + extra + [self.at(self.ob.goal, self.init)],
+                       self.at(self.ob.goal, self.s), self.ob.info)
+        return [base, step]
+
+
+def apply_induction(eng, obligations):
+    """split the obligations into plain ones and InductionGroups (see there)"""
+    import ast as _ast
+    from .symex import V, static_kind
+    from . import values as vl
+    plain, groups = [], []
+    for key, ob in obligations:
+        c = (ob.info or {}).get('contract')
+        label = ob.name.split(':', 1)[1].split('#')[0] if ':' in ob.name else ob.name
+        hint = None
+        if c is not None and label.startswith('post.'):
+            for lab, expr in c.induct.items():
+                if label == 'post.' + lab:
+                    hint = expr
+        if hint is None:
+            plain.append((key, ob))
+            continue
+        params = dict(ob.info['params'])
+        e = hint.body if isinstance(hint, _ast.Lambda) else hint
+        # the hint is an expression over the entry state naming the sequence to induct over: a
+        # parameter, an attribute of a parameter object, or a term such as select(self.triples, ...)
+        from .symex import Exec, Unsupported
+        hx = Exec(eng, None, c, spec_mode=True)
+        hx.fname = key
+        hx.env = dict(params)
+        hx.old_env = dict(params)
+        try:
+            sv = hx.ev(e)
+        except Unsupported:
+            sv = None
+        if not isinstance(sv, V) or static_kind(sv.t) not in ('VList', 'VTuple'):
+            plain.append((key, ob))
+            continue
+        term = vl.simp(sv.t.arg(0))
+        if not (mentions(ob.goal, term) or any(mentions(p, term) for p in ob.pc)):
+            plain.append((key, ob))
+            continue
+        groups.append(InductionGroup(key, ob, term))
+    return plain, groups
